@@ -359,3 +359,17 @@ Proof.
   assert (length c2 = length (p_cmds p)) as L by (rewrite (on_last_length _ _ _ E2), (on_first_length _ _ _ E1); exact L0).
   destruct (spawn_stops_at_failure c2 0 k ls o Sp) as [->|[-> _]]; try lia; discriminate.
 Qed.
+
+(* ---------- composing carries the pipeline-level settings along ---------- *)
+
+(* p | q keeps the input, input data and stderr sink configured on p and the output configured on q;
+   p | e keeps everything configured on p *)
+Theorem cat_keeps_settings x y a b : build x = Some a -> build y = Some b ->
+  exists r, build (PCat x y) = Some r /\ p_cmds r = p_cmds a ++ p_cmds b
+            /\ p_in r = p_in a /\ p_data r = p_data a /\ p_errfile r = p_errfile a /\ p_out r = p_out b.
+Proof. intros Ha Hb. cbn [build]. rewrite Ha, Hb. eexists. repeat split. Qed.
+
+Theorem push_keeps_settings x e a : build x = Some a ->
+  exists r, build (PPush x e) = Some r /\ p_cmds r = p_cmds a ++ [e]
+            /\ p_in r = p_in a /\ p_data r = p_data a /\ p_errfile r = p_errfile a /\ p_out r = p_out a.
+Proof. intros Ha. cbn [build]. rewrite Ha. eexists. repeat split. Qed.
